@@ -51,7 +51,14 @@ type wRun struct {
 // execWriter runs the history on a fresh Writer (as thread 0 of a controlled run).
 func execWriter(hist []int, pre []lz4.Option) (*wRun, *verifsched.Execution) {
 	run := &wRun{}
-	x := verifsched.Run(nil, verifsched.Options{MaxSteps: 20000}, func() {
+	x := verifsched.Run(nil, verifsched.Options{MaxSteps: 20000}, writerBody(hist, pre, run))
+	return run, x
+}
+
+// writerBody is the history as a thread-0 body (shared by the canonical run and the schedule
+// exploration of concurrent histories).
+func writerBody(hist []int, pre []lz4.Option, run *wRun) func() {
+	return func() {
 		run.sinks = []*schedSink{{}}
 		w := lz4.NewWriter(run.sinks[0])
 		w.Apply(lz4.BlockSizeOption(lz4.Block64Kb))
@@ -114,8 +121,43 @@ func execWriter(hist []int, pre []lz4.Option) (*wRun, *verifsched.Execution) {
 			}
 		}
 		run.dump = lz4.VerifDump(w)
-	})
-	return run, x
+	}
+}
+
+// writerScheduleScenario explores every schedule (within the bound) of a history on a concurrent
+// Writer, with the same reference-model oracle.
+func writerScheduleScenario(hist []int) *Scenario {
+	h := append([]int(nil), hist...)
+	return &Scenario{
+		Name: "Whist[" + histString(wAlphabet, h) + "]",
+		Opts: verifsched.Options{MaxSteps: 20000},
+		Body: func(o *Obs) {
+			run := &wRun{}
+			o.Extra = run
+			o.AddState(func() uint64 {
+				d := uint64(len(run.obs))
+				for _, ob := range run.obs {
+					d = d*1000003 + uint64(ob.n)*7
+					if ob.err != nil {
+						d += 3
+					}
+				}
+				for _, sk := range run.sinks {
+					d = d*1000003 + sk.digest()
+				}
+				return d
+			})
+			writerBody(h, nil, run)()
+		},
+		Check: func(o *Obs, x *verifsched.Execution) (string, string) {
+			run, _ := o.Extra.(*wRun)
+			if run == nil {
+				return "", ""
+			}
+			sig, what, _ := checkWriter(h, run, x)
+			return sig, what
+		},
+	}
 }
 
 func histString(alpha []string, h []int) string {
@@ -381,6 +423,10 @@ type c17Case struct {
 }
 
 func c17Writer(c *ev.Ctx, depth int, states map[string]bool, transitions *int64) {
+	schedDepth := 3
+	if c.Thorough() {
+		schedDepth = 4
+	}
 	var rec func(h []int)
 	failedPrefix := map[string]bool{}
 	rec = func(h []int) {
@@ -406,6 +452,12 @@ func c17Writer(c *ev.Ctx, depth int, states map[string]bool, transitions *int64)
 			states[key] = true
 			if len(h) == 3 && len(states)%50 == 0 {
 				c.Sample(map[string]interface{}{"object": "Writer", "history": histString(wAlphabet, h)})
+			}
+			// schedule axis: histories on a concurrent Writer (Apply(Concurrency 2) first) are also
+			// explored over every interleaving within preemption bound 1
+			if wAlphabet[h[0]] == "apply-conc2" && len(h) >= 2 && len(h) <= schedDepth && x.Concurrent {
+				exploreLocal(c, writerScheduleScenario(h), 1)
+				c.Add("histories_explored_over_schedules", 1)
 			}
 			// differential Reset oracle
 			if wAlphabet[h[len(h)-1]] == "reset" && len(h) <= depth-1 {
